@@ -612,3 +612,13 @@ Proof.
   rewrite fold_max_snd. change 0%N with (N.of_nat 0). rewrite fold_max_nat, leaf_depths_max.
   rewrite Nat.max_0_l. reflexivity.
 Qed.
+
+(** the two frames by which [fix_del] describes the tree after the
+    red-sibling case are the rotation the C code performs there *)
+Lemma fix_del_case1_is_rotation d x pe wa we wb :
+  rotate d (mk d Red x pe (mk d Black wa we wb))
+  = Some (plug1 (mkF d Black we wb) (plug1 (mkF d Red pe wa) x)).
+Proof. destruct d; reflexivity. Qed.
+
+Theorem rb_erase_finds t k r t' : rb_erase t k = Some (r, t') -> r = fst (bt_find t k).
+Proof. intros H. apply rb_erase_inorder in H. destruct H as (-> & _). apply bt_erase_finds. Qed.
